@@ -240,6 +240,19 @@ def run (env : Env) : Prog → Bindings → Res
   | .exec p, σ => run env p σ
   | .within _ p, σ => run env p σ
 
+/-- a long-lived evaluator (a function that survives a reload, a Jupyter session): statements executed one after the
+other over the same symbol table, the `allow_all_imports` option of the config entry possibly changed in between.  The
+option is an input of every STEP, not of the context: `ast_import` / `ast_importfrom` read the live config entry
+(`self.config_entry.data.get(CONF_ALLOW_ALL_IMPORTS, False)`, l.957 / l.992) each time they execute. -/
+def runSeq (env : Env) : List (Bool × Prog) → Bindings → List Res
+  | [], _ => []
+  | (a, p) :: rest, σ => run { env with allowAll := a } p σ :: runSeq env rest (run { env with allowAll := a } p σ).binds
+
+/-- the symbol table after the steps -/
+def seqBinds (env : Env) : List (Bool × Prog) → Bindings → Bindings
+  | [], σ => σ
+  | (a, p) :: rest, σ => seqBinds env rest (run { env with allowAll := a } p σ).binds
+
 def Prog.inner : Prog → Stmt
   | .stmt s => s
   | .exec p => p.inner
